@@ -189,6 +189,11 @@ fn check_any(w: &mut Worker, text: &str, kind: &str, rep: &mut Report) {
 }
 
 fn render_tokens(toks: &[Tok]) -> String {
+    render_tokens_filler(toks, usize::MAX, "")
+}
+
+/// Like `render_tokens`, with `filler` written directly behind token number `at`.
+fn render_tokens_filler(toks: &[Tok], at: usize, filler: &str) -> String {
     let mut s = String::new();
     for (i, t) in toks.iter().enumerate() {
         let piece = match t {
@@ -211,6 +216,9 @@ fn render_tokens(toks: &[Tok]) -> String {
             }
         }
         s.push_str(piece);
+        if i == at {
+            s.push_str(filler);
+        }
         if matches!(t, Tok::Comma | Tok::Colon) {
             s.push(' ');
         }
@@ -287,6 +295,26 @@ pub fn run(cfg: &Cfg) -> Report {
                         }
                     };
                     check_any(&mut w, &render_tokens(&t), kind, &mut rep);
+                }
+            }
+        }
+        // ---- white space or a comment inside a type: the grammar glues the prefixes `?`, `[]`, `[string]` to the
+        // type they apply to (`[] string` is not a type); such a text must be rejected
+        if let Ok(toks) = tokenize(&canonical) {
+            let prefixes: Vec<usize> = toks.iter().enumerate().filter(|(_, t)| matches!(t, Tok::Question | Tok::ArrayPrefix | Tok::MapPrefix)).map(|(i, _)| i).collect();
+            if !prefixes.is_empty() {
+                for _ in 0..(if miri { 1 } else { 3 }) {
+                    let at = *rng.pick(&prefixes);
+                    let filler = *rng.pick(&[" ", "\n", "\t", "  ", " # c\n", "\n\n"]);
+                    let text = render_tokens_filler(&toks, at, filler);
+                    rep.eval(vnet::fnv(text.as_bytes()));
+                    rep.count("negative.filler-behind-a-type-prefix");
+                    match w.parse(&text) {
+                        Parsed::Panic(p) => rep.violation("C13/parser-panics", format!("panic: {p}; text: {text:?}"), replay(&text, "filler-behind-a-type-prefix")),
+                        Parsed::Hang => rep.violation("C13/parser-does-not-terminate", format!("text: {text:?}"), replay(&text, "filler-behind-a-type-prefix")),
+                        Parsed::Rejected(_) => rep.count("rejected"),
+                        Parsed::Ok(_) => rep.violation("C13/accepts-text-outside-the-grammar:white-space-inside-a-type", format!("{filler:?} behind the type prefix that is token {at}; text: {text:?}"), replay(&text, "filler-behind-a-type-prefix")),
+                    }
                 }
             }
         }
